@@ -187,6 +187,12 @@ def check(facts, rep, bodies, rule="C11-R1"):
                 # the guard is there but not as a dominating edge (a flag set inside a guarded loop, an earlier return ...):
                 # not decided here - only a subtraction whose operands are never compared at all is reported
                 okk, why = True, "its operands are compared in the function (guard not syntactically dominating; not decided further)"
+            if not okk:
+                from .. import intervals
+                done_, mf_ = body.__dict__.get("_intervals") or intervals.analyse(body)
+                body.__dict__["_intervals"] = (done_, mf_)
+                if done_ and blk["id"] not in mf_:
+                    okk, why = True, "cannot underflow on any path of the interval exploration of the function (parameters over their whole types)"
             if not okk and (p, descr) in EXCEPTIONS:
                 okk, why = True, "frozen exception: " + EXCEPTIONS[(p, descr)]
             rep.ob(rule, "unsigned-sub:%s:%s:%s#%d" % (p, ty, descr, k), okk,
